@@ -330,7 +330,10 @@ class Runner(object):
                     ck.fail("%s-ndef-where-reference-finds-none" % base, "%s: object returned, independent reading finds no NDEF TLV" % kind, d)
                 else:
                     inside = all(a < ref["area_end"] for a in ref["addrs"])
-                    if not inside:
+                    if ref["head"] > ref["area_end"]:
+                        ck.fail("%s-tlv-header-outside-data-area" % base, "%s: length field of the message TLV at %d ends at %d, behind the "
+                                "data area end %d" % (kind, ref["off"], ref["head"], ref["area_end"]), d)
+                    elif not inside:
                         ck.fail("%s-octets-outside-data-area" % base, "%s: message TLV at %d length %d ends beyond the data area end %d"
                                 % (kind, ref["off"], ref["length"], ref["area_end"]), d)
                     elif r.octets != bytes(rsp.at(a) for a in ref["addrs"]):
@@ -390,6 +393,11 @@ def run(ck):
     R.flush("command-blind random answers: outcome, interaction count, commands")
     corpus(R)
     R.flush("witness corpus (section 9 findings F12-F15 and the new ones)")
+    sweep_t2_reserved(R, rng, T)
+    sweep_t1_tail(R, rng, T)
+    R.flush("structured sweeps: reserved octets inside the area x boundary lengths, TLV headers at the end of the area")
+    sweep_activation(R, rng, T)
+    R.flush("activation sweeps: all IC codes, GET_VERSION / authenticate answers, HR0/HR1, SENSB_RES, ATS T0, SEL_RES")
     if T:
         for kind, gen, budget in (("t3", gen_t3, 2 * BOUND["t3"] + 10), ("t4", gen_t4, 12000)):
             for i in range(40):
@@ -415,6 +423,117 @@ def run(ck):
     ]
     ck.trusted += ["harness/sims/adv_tags.py (adversarial responders, budgeted fake clf)", "drv_c08 (compiled Lean model driver)",
                    "Python set of skip bytes = list of ranges in the model"]
+
+
+def mem_ctl_tlv(start, size, lock=False):
+    """control TLV reserving `size` octets from address `start` (16 octets per page)"""
+    return bytes([1 if lock else 2, 3, (start // 16) << 4 | start % 16, (size * 8 if lock else size) & 0xFF, 0x04])
+
+
+def sweep_t2_reserved(R, rng, full):
+    """reserved octets INSIDE the data area, message lengths around 'room' and 'room minus reserved'"""
+    for cc2 in ((6, 12, 18) if full else (6, rng.choice([12, 18]))):
+        end = 16 + cc2 * 8
+        for rs in ((1, 4, 8) if full else (rng.choice([1, 4]), 8)):
+            for lock in (False, True):
+                rsz = rs if not lock else 1          # a lock TLV reserves whole octets: 8 bits = 1 octet
+                start = end - rng.randrange(rsz + 1, 12)       # reserved range inside the value of the message
+                ctl = mem_ctl_tlv(start, rsz, lock)
+                off = 16 + len(ctl)
+                for hdr in (2, 4):
+                    room = end - (off + hdr)
+                    for ln in range(room - rsz - 1, room + 2):
+                        if ln < 0 or (hdr == 2 and ln > 254):
+                            continue
+                        body = ctl + (bytes([3, ln]) if hdr == 2 else bytes([3, 255]) + struct.pack(">H", ln))
+                        mem = bytearray(rbytes(rng, 12)) + bytes([0xE1, 0x10, cc2, 0x00]) + body
+                        mem += rbytes(rng, end + 32 - len(mem))
+                        rsp = A.T2Adv(bytes(mem), beyond="wrap", sectors="yes")
+                        R.case(rsp, {"kind": "t2", "sweep": "reserved-inside", "cc2": cc2, "reserved": [start, rsz], "lock": lock,
+                                     "hdr": hdr, "len": ln, "room": room, "mem": hx(mem)}, 3000)
+
+
+def sweep_t1_tail(R, rng, full):
+    """TLV headers 1..8 octets before the end of the data area, every memory size class incl. TMS = FFh"""
+    heads = [b"\x03\x00", b"\x03\x02ab", b"\x03\xff\x00\x00", b"\x03\xff\x00\x03abc", b"\x01\x03\xf0\x10\x04", b"\xfd\xff\x00\x01x",
+             b"\x03\xfe", b"\x03"]
+    for tms in (0x0E, 0x0F, 0x1F, 0x3F, 0xFF):
+        end = (tms + 1) * 8
+        hr = b"\x11\x48" if tms == 0x0E else b"\x12\x4C"
+        for back in range(1, 9):
+            for h in (heads if full or tms in (0x0E, 0xFF) else rng.sample(heads, 3)):
+                pos = end - back
+                if 104 <= pos < (120 if end == 120 else 128):
+                    continue
+                mem = bytearray(rbytes(rng, 8)) + bytes([0xE1, 0x10, tms, 0x00]) + bytes(pos - 12) + h
+                mem += rbytes(rng, max(0, end + 16 - len(mem)))
+                rsp = A.T1Adv(hr, bytes(mem), wrap=rng.random() < 0.8)
+                R.case(rsp, {"kind": "t1", "sweep": "tlv-at-tail", "tms": tms, "back": back, "head": hx(h), "wrap": rsp.wrap,
+                             "mem_tail": hx(mem[pos - 2:pos + 12])}, 300)
+    # the same for Type 2
+    for cc2 in (1, 6, 18, 255):
+        end = 16 + cc2 * 8
+        for back in range(1, 6):
+            for h in (heads[:4] if full or cc2 in (6, 255) else rng.sample(heads[:4], 2)):
+                pos = end - back
+                mem = bytearray(rbytes(rng, 12)) + bytes([0xE1, 0x10, cc2, 0x00]) + bytes(pos - 16) + h
+                mem += rbytes(rng, max(0, end + 16 - len(mem)))
+                R.case(A.T2Adv(bytes(mem), beyond="wrap", sectors="yes"),
+                       {"kind": "t2", "sweep": "tlv-at-tail", "cc2": cc2, "back": back, "head": hx(h)}, 3000)
+
+
+def sweep_activation(R, rng, full):
+    """the activation inputs have tiny domains: sweep them completely"""
+    import nfc.clf
+    attr = A.t3_attr(0x10, 4, 1, 1, 0, 1, 3)
+    for ic in range(256):                                    # every IC code of PMm
+        for with_sys in ((True, False) if full or ic % 16 == 0 else (ic % 2 == 0,)):
+            R.case(A.T3Adv(attr, b"abc", ic=ic, with_sys=with_sys), {"kind": "t3", "sweep": "ic-code", "ic": ic, "with_sys": with_sys}, 100)
+    img = bytearray(16) + b"\x03\x01a\xfe" + bytes(44)
+    img[12:16] = b"\xE1\x10\x06\x00"
+    import nfc.tag.tt2_nxp
+    versions = [bytes(k) for k in nfc.tag.tt2_nxp.VERSION_MAP]
+    variants = set(versions)
+    for v in versions:                                       # every known GET_VERSION answer and its neighbours
+        for i in range(len(v)):
+            for delta in (1, 255):
+                variants.add(v[:i] + bytes([(v[i] + delta) & 255]) + v[i + 1:])
+        variants.add(v[:-1])
+        variants.add(v + b"\x00")
+    variants |= {b"", b"\x00", b"\x00\x00", None}
+    vs = sorted(variants, key=lambda x: (x is None, x or b""))
+    if not full:
+        vs = [v for v in vs if v is None or v in versions or len(v) < 3] + rng.sample([v for v in vs if v is not None], 40)
+    for v in vs:
+        for auth in (None, b"\x00"):
+            R.case(A.T2Adv(bytes(img), sdd=b"\x04\x11\x22\x33\x44\x55\x66", version=v, auth=auth),
+                   {"kind": "t2", "sweep": "get-version", "version": None if v is None else hx(v), "auth": None if auth is None else hx(auth)}, 200)
+    for a0 in range(256):                                    # every first octet of the authenticate answer
+        if full or a0 in (0xAF, 0x00, 0xAE, 0xB0) or a0 % 16 == 0:
+            R.case(A.T2Adv(bytes(img), sdd=b"\x04\x11\x22\x33\x44\x55\x66", auth=bytes([a0, 1, 2])),
+                   {"kind": "t2", "sweep": "auth-answer", "a0": a0}, 200)
+    t1mem = bytearray(rbytes(rng, 8)) + b"\xE1\x10\x0E\x00\x03\x01a\xfe" + bytes(104)
+    for hr0 in range(256):                                   # every HR0, with HR1 of the known products and others
+        for hr1 in ((0x48, 0x4C, 0x00) if full or hr0 in (0x11, 0x12) else (rng.choice([0x48, 0x4C, 0x00, 0xFF]),)):
+            R.case(A.T1Adv(bytes([hr0, hr1]), bytes(t1mem)), {"kind": "t1", "sweep": "hr", "hr0": hr0, "hr1": hr1}, 100)
+    cc = A.t4_cc(0x20, 59, 52, 4, 20)
+    f = struct.pack(">H", 3) + b"abc" + bytes(15)
+    for b in range(256):                                     # SENSB_RES protocol info: FSCI/FWI nibbles, 12 and 13 octets
+        sensb = bytes([0x50, 1, 2, 3, 4, 0, 0, 0, 0, 0x00, (b >> 4) << 4 | 1, (b & 15) << 4])
+        if full or b % 16 in (0, 8, 9, 15) or b >> 4 in (0, 8, 9, 15):
+            R.case(A.T4Adv(cc, f, kind="B", sensb=sensb + (b"\x00" if b % 2 else b"")), {"kind": "t4", "sweep": "sensb", "fsci": b >> 4, "fwi": b & 15}, 200,
+                   max_send=rng.choice([256, 64]))
+    for t0 in range(256):                                    # every format byte T0 with all, with missing interface bytes
+        n_if = bin(t0 >> 4 & 7).count("1")
+        full_ats = bytes([2 + n_if, t0]) + bytes([0x80, 0x70, 0x02][:n_if])
+        cuts = range(len(full_ats) + 1) if (full or t0 % 16 in (0, 8, 9)) else (len(full_ats), rng.randrange(len(full_ats) + 1))
+        for cut in cuts:
+            R.case(A.T4Adv(cc, f, ats=full_ats[:cut]), {"kind": "t4", "sweep": "ats-t0", "t0": t0, "ats": hx(full_ats[:cut])}, 200)
+    for sel in range(256):                                   # every SEL_RES / SENS_RES platform nibble
+        if full or sel % 8 == 0 or sel in (0x20, 0x24, 0x28, 0x40, 0x60):
+            rsp = A.T2Adv(bytes(img), sel_res=sel, sdd=b"\x01\x02\x03\x04")
+            rsp.ats = b"\x05\x78\x80\x70\x02"
+            R.case(rsp, {"kind": "script-t4a" if sel >> 5 & 1 else "t2", "sweep": "sel-res", "sel_res": sel}, 200)
 
 
 def regen(kind, d, rsp):
